@@ -1,8 +1,286 @@
 import AslModel.Str
-/-! # C03 — placeholder while the model is validated (theorems follow) -/
-namespace C03
-open AslModel.Str
+import AslProofs.Str
+import AslProofs.StrRep
+import AslProofs.StrOps
+import AslProofs.StrHist
+/-!
+# C03 — `asl::String` agrees with a byte-string model and stays in bounds
 
-theorem empty_len : Rep.empty.len = 0 := rfl
+Property theorems only (helper lemmas: `AslProofs/Str*.lean`).  They are about the functions the model
+driver `Driver/C03.lean` runs (`AslModel.Str.Rep.*`, `AslModel.Str.*`), which the correspondence check ties to
+`src/String.cpp` / `include/asl/String.h` on every run.
+
+Reading guide.  `Models r s` ("`r` represents the byte string `s`") is the representation invariant:
+the storage block has exactly `cap()` bytes, `_len = |s|`, the block starts with `s` followed by a NUL, and `s`
+contains no NUL — hence `strlen(str()) = length()` and `length() < cap()` (`rep_inv`).  Every block access of the
+model goes through `rd`/`wr`, which return `none` outside the block; a theorem of the form
+`∃ r', op … = some r' ∧ Models r' (spec)` therefore says three things at once: the operation never leaves its
+storage, the invariant is re-established, and the resulting text is the byte-string specification on the right.
+The specifications are plain list expressions (`++`, `take`, `drop`, `dropWhile`, `replicate`) or the
+character-level scanners `splitAbs` / `replaceAbs`; none of them mentions indices, capacities or the code's loops.
+All lengths are unbounded naturals: the inline/heap switch at 16, the first heap sizes 20/24, doubling and the
+malloc/realloc switch at 1 KiB are branches inside `resize`, covered by the same statements.
+-/
+namespace C03
+open AslModel.Str AslModel.Str.Rep AslProofs.Str
+
+/-! ## representation invariant -/
+
+/-- `length()` is the offset of the terminating NUL, the text is what the API returns, and it fits the block -/
+theorem rep_inv {r : Rep} {s : Bytes} (h : Models r s) :
+    r.toList = s ∧ r.view = s ∧ (cstr r.buf).length = r.len ∧ r.len < r.cap ∧ r.buf.length = r.cap := by
+  refine ⟨h.toList, h.view, ?_, ?_, h.1⟩
+  · have := h.view; unfold Rep.view at this; rw [this, h.2.1]
+  · rw [h.2.1]; exact h.lt_cap
+
+/-- `String()`, `String(const char*, n)`, `String(const char*)`, copy construction, `String(char)`, `repeat` -/
+theorem construct_spec :
+    Models Rep.empty [] ∧
+    (∀ b, NulFree b → ∃ r, ofBytes b = some r ∧ Models r b) ∧
+    (∀ b, NulFree b → ∃ r, ofCStr b = some r ∧ Models r b) ∧
+    (∀ r s, Models r s → ∃ r', copy r = some r' ∧ Models r' s) ∧
+    (∀ c, c ≠ 0 → ∃ r, ofChar c = some r ∧ Models r [c]) ∧
+    (∀ c n, c ≠ 0 → ∃ r, repeatChar c n = some r ∧ Models r (List.replicate n c)) :=
+  ⟨empty_models, ofBytes_spec, ofCStr_spec, fun _ _ h => copy_spec h, ofChar_spec, fun c n h => repeatChar_spec c h n⟩
+
+/-- `resize(n)` for every `n` and every storage state (inline, heap below and above 1 KiB; growing or not):
+    in bounds, `length() = n`, terminated at `n`, and the first `min(n, old length)` bytes are the old ones -/
+theorem resize_spec {r : Rep} {s : Bytes} (h : Models r s) (n : Nat) :
+    ∃ r', r.resize n = some r' ∧ r'.len = n ∧ r'.buf.length = r'.cap ∧ n < r'.cap ∧
+      r'.buf.getD n 1 = 0 ∧ (r'.buf.take n).take s.length = s.take n := by
+  obtain ⟨r', B, hr, hl, hc, ⟨Y, hY⟩, hB, hbuf⟩ := resize_keep h n
+  have hlen : (B.take n).length = n := by simp only [List.length_take]; omega
+  refine ⟨r', hr, hl, hc, ?_, ?_, ?_⟩
+  · rw [← hc, hbuf]; simp only [List.length_append, List.length_cons, hlen]; omega
+  · rw [hbuf, List.getD_eq_getElem?_getD, List.getElem?_append_right (by omega), hlen]; simp
+  · rw [hbuf, List.take_left' hlen]; subst hY
+    rw [List.take_take, List.take_append]
+    by_cases hn : n ≤ s.length
+    · have e1 : min s.length n - s.length = 0 := by omega
+      have e2 : n - s.length = 0 := by omega
+      have e3 : min s.length n = n := by omega
+      simp [e2, e3]
+    · have e3 : min s.length n = s.length := by omega
+      simp [e3, List.take_of_length_le (show s.length ≤ n by omega)]
+
+/-- truncation `resize(n)`, `n ≤ length()`, and `resize(n, true, false)` (capacity only) -/
+theorem resize_shrink_reserve {r : Rep} {s : Bytes} (h : Models r s) (n : Nat) :
+    (n ≤ s.length → ∃ r', r.resize n = some r' ∧ Models r' (s.take n)) ∧
+    (∃ r', r.resize n true false = some r' ∧ Models r' s) :=
+  ⟨shrink_spec h n, resize_reserve h n⟩
+
+/-! ## append / assign, including a string appended or assigned to (a piece of) itself -/
+
+theorem append_spec {r : Rep} {s b : Bytes} (h : Models r s) (hb : NulFree b) :
+    ∃ r', r.append (.ext b) = some r' ∧ Models r' (s ++ b) := append_ext h hb
+
+theorem append_char_spec {r : Rep} {s : Bytes} (h : Models r s) (c : UInt8) (hc : c ≠ 0) :
+    ∃ r', r.appendChar c = some r' ∧ Models r' (s ++ [c]) := appendChar_spec h c hc
+
+/-- `s.append(s.data() + off, n)` for every piece `[off, off+n)` of the string, whatever the growth it triggers -/
+theorem self_append_spec {r : Rep} {s : Bytes} (h : Models r s) (off n : Nat) (hp : off + n ≤ s.length) :
+    ∃ r', r.append (.self off n) = some r' ∧ Models r' (s ++ (s.drop off).take n) := by
+  have := append_self h off n hp
+  rwa [sub_add] at this
+
+/-- `s += s` -/
+theorem self_plus_spec {r : Rep} {s : Bytes} (h : Models r s) :
+    ∃ r', r.append (.self 0 r.len) = some r' ∧ Models r' (s ++ s) := by
+  have := self_append_spec h 0 s.length (by omega)
+  simpa [h.2.1] using this
+
+theorem assign_spec {r : Rep} {s b : Bytes} (h : Models r s) (hb : NulFree b) :
+    ∃ r', r.assign (.ext b) = some r' ∧ Models r' b := assign_ext h hb
+
+/-- `s.assign(*s + off, n)`, `s = *s + off`, `s = s` -/
+theorem assign_piece_spec {r : Rep} {s : Bytes} (h : Models r s) (off n : Nat) (hp : off + n ≤ s.length) :
+    ∃ r', r.assign (.self off n) = some r' ∧ Models r' ((s.drop off).take n) := by
+  have := assign_self h off n hp
+  rwa [sub_add] at this
+
+/-! ## all histories of in-place mutations on one String -/
+
+/-- what each mutation of the line protocol means on byte strings (the reference model) -/
+theorem mutation_meaning (s : Bytes) :
+    (∀ b, Mut.abs s (.assign b) = b) ∧ (∀ b, Mut.abs s (.append b) = s ++ b) ∧
+    (∀ c, Mut.abs s (.appendChar c) = s ++ [c]) ∧ (∀ x, Mut.abs s (.appendInt x) = s ++ myitoa x) ∧
+    (∀ a b, Mut.abs s (.appendSelf a b) = s ++ (s.drop (piece s.length a b).1).take (piece s.length a b).2) ∧
+    Mut.abs s .plusSelf = s ++ s ∧
+    (∀ a b, Mut.abs s (.assignSelf a b) = (s.drop (piece s.length a b).1).take (piece s.length a b).2) ∧
+    (∀ a, Mut.abs s (.assignTail a) = s.drop (a % (s.length + 1))) ∧ Mut.abs s .selfEq = s ∧
+    Mut.abs s .trim = ((s.dropWhile isSpace).reverse.dropWhile isSpace).reverse ∧ Mut.abs s .clear = [] ∧
+    (∀ a, Mut.abs s (.shrink a) = s.take (a % (s.length + 1))) ∧
+    (∀ n c, Mut.abs s (.grow n c) = s ++ List.replicate n c) ∧ (∀ n c, Mut.abs s (.refill n c) = List.replicate n c) ∧
+    (∀ n, Mut.abs s (.reserve n) = s) ∧ (∀ a, Mut.abs s (.pokeFix a) = s.take (a % (s.length + 1))) :=
+  ⟨fun _ => rfl, fun _ => rfl, fun _ => rfl, fun _ => rfl, fun _ _ => rfl, rfl, fun _ _ => rfl, fun _ => rfl, rfl, rfl, rfl,
+   fun _ => rfl, fun _ _ => rfl, fun _ _ => rfl, fun _ => rfl, fun _ => rfl⟩
+
+/-- every single mutation: in bounds, invariant kept, result = its byte-string meaning -/
+theorem mutation_spec {r : Rep} {s : Bytes} (h : Models r s) (m : Mut) (hv : m.Valid) :
+    ∃ r', r.mutate m = some r' ∧ Models r' (Mut.abs s m) := mutate_spec h m hv
+
+/-- every finite history of mutations applied to one String, from any represented start:
+    no step leaves the storage, the invariant holds at the end (and, being re-established by every step,
+    after every prefix), and the text is the fold of the byte-string meanings -/
+theorem history_inv (ms : List Mut) {r : Rep} {s : Bytes} (h : Models r s) (hv : ∀ m ∈ ms, m.Valid) :
+    ∃ r', r.run ms = some r' ∧ Models r' (ms.foldl Mut.abs s) := run_spec ms h hv
+
+/-! ## substring, substr, concat, trim -/
+
+theorem substring_is_slice {r : Rep} {s : Bytes} (h : Models r s) (i j : Nat) (hij : i ≤ j) (hj : j ≤ s.length) :
+    ∃ r', r.substring i j = some r' ∧ Models r' ((s.drop i).take (j - i)) := substring_spec h i j hij hj
+
+/-- `substr(i, n)`: negative `i` counts from the end; the result is at most `n` bytes from there -/
+theorem substr_is_slice {r : Rep} {s : Bytes} (h : Models r s) (i : Int) (n : Nat) (hi : -(s.length : Int) ≤ i) :
+    ∃ r', r.substr i n = some r' ∧ Models r' ((s.drop (if i < 0 then i + s.length else i).toNat).take n) :=
+  substr_spec h i n hi
+
+theorem concat_is_append {r : Rep} {s b : Bytes} (h : Models r s) (hb : NulFree b) :
+    ∃ r', r.concat b = some r' ∧ Models r' (s ++ b) := concat_spec h hb
+
+/-- `trim()` (in place) and `trimmed()` remove exactly the leading and trailing blanks -/
+theorem trim_removes_blanks {r : Rep} {s : Bytes} (h : Models r s) :
+    (∃ r', r.trim = some r' ∧ Models r' ((s.dropWhile isSpace).reverse.dropWhile isSpace).reverse) ∧
+    (∃ r', r.trimmed = some r' ∧ Models r' ((s.dropWhile isSpace).reverse.dropWhile isSpace).reverse) := by
+  have h1 := trim_spec h
+  have h2 := trimmed_spec h
+  rw [trimmed_eq] at h1 h2
+  exact ⟨h1, h2⟩
+
+/-- `myisspace` is exactly space, tab, CR, LF (also for bytes ≥ 0x80, where `char` is negative) -/
+theorem isSpace_iff (c : UInt8) : isSpace c = true ↔ c = 32 ∨ c = 9 ∨ c = 10 ∨ c = 13 := by
+  have key : ∀ n, n < 256 → (isSpace (UInt8.ofNat n) = true ↔
+      UInt8.ofNat n = 32 ∨ UInt8.ofNat n = 9 ∨ UInt8.ofNat n = 10 ∨ UInt8.ofNat n = 13) := by decide +kernel
+  have := key c.toNat c.toNat_lt
+  simpa using this
+
+/-! ## search -/
+
+/-- `indexOf(pat, i0)` returns the leftmost occurrence at or after `i0`, or −1 (`none`) when there is none -/
+theorem indexOf_leftmost (s pat : Bytes) (i0 : Nat) (hi : i0 ≤ s.length) :
+    (∀ k, indexOf s pat i0 = some k →
+      i0 ≤ k ∧ pat <+: s.drop k ∧ k + pat.length ≤ s.length ∧ ∀ k', i0 ≤ k' → k' < k → ¬ pat <+: s.drop k') ∧
+    (indexOf s pat i0 = none → ∀ k', i0 ≤ k' → ¬ pat <+: s.drop k') :=
+  ⟨fun _ h => indexOf_some hi h, indexOf_none⟩
+
+/-- `lastIndexOf(pat)`, `pat ≠ ""`: the rightmost occurrence, or −1 when there is none -/
+theorem lastIndexOf_rightmost (s pat : Bytes) (hp : pat ≠ []) :
+    (∀ k, lastIndexOf s pat = some k → pat <+: s.drop k ∧ ∀ k', k < k' → ¬ pat <+: s.drop k') ∧
+    (lastIndexOf s pat = none → ∀ k', ¬ pat <+: s.drop k') := by
+  unfold lastIndexOf
+  rcases lastIndexOfLoop_spec s pat hp 0 none with ⟨hno, hr⟩ | ⟨k, _, hr, hocc, hmax⟩
+  · rw [hr]
+    exact ⟨fun k h => (by cases h), fun _ k' => hno k' (by omega)⟩
+  · rw [hr]
+    exact ⟨fun k0 h => (by cases h; exact ⟨hocc, hmax⟩), fun h => (by cases h)⟩
+
+/-- `compare`/`operator<`/`==` (strcmp, memcmp) order strings lexicographically by unsigned bytes -/
+theorem compare_lex (a b : Bytes) :
+    (strcmp a b = -1 ∧ a < b) ∨ (strcmp a b = 0 ∧ a = b) ∨ (strcmp a b = 1 ∧ b < a) := strcmp_spec a b
+
+/-! ## split / join / replace -/
+
+/-- `split(sep)` on the representation: in bounds, every piece is a well-formed String, and the pieces are
+    those of the standard left-to-right non-overlapping split -/
+theorem split_spec {r : Rep} {s : Bytes} (h : Models r s) (sep : Bytes) (hs : sep ≠ []) :
+    ∃ l, r.split sep = some l ∧ AllModels l (splitAbs sep [] s) := by
+  obtain ⟨l, hl, hf⟩ := split_rep h sep
+  rw [split_eq sep s hs] at hf
+  exact ⟨l, hl, hf⟩
+
+/-- splitting by a non-empty separator and joining with it is the identity -/
+theorem split_join {r sepR : Rep} {s sep : Bytes} (h : Models r s) (hsep : Models sepR sep) (hs : sep ≠ []) :
+    ∃ l r', r.split sep = some l ∧ Rep.join sepR l = some r' ∧ Models r' s := by
+  obtain ⟨l, hl, hf⟩ := split_rep h sep
+  obtain ⟨r', hj, hm⟩ := join_rep hsep hf
+  refine ⟨l, r', hl, hj, ?_⟩
+  have := join_splitLoop sep s hs 0 (by omega)
+  rw [AslModel.Str.split, this] at hm
+  simpa using hm
+
+/-- `join` is interleaving with the separator -/
+theorem join_spec {sepR : Rep} {sep : Bytes} (hsep : Models sepR sep) {ps : List Rep} {parts : List Bytes}
+    (hf : AllModels ps parts) : ∃ r', Rep.join sepR ps = some r' ∧
+      Models r' (match parts with | [] => [] | p :: t => p ++ (t.map (sep ++ ·)).flatten) := by
+  obtain ⟨r', hj, hm⟩ := join_rep hsep hf
+  refine ⟨r', hj, ?_⟩
+  cases parts with
+  | nil => exact hm
+  | cons p t => simpa [AslModel.Str.join, joinLoop_eq] using hm
+
+/-- `replace(a, b)`, `a ≠ ""`: in bounds, and the result is the standard non-overlapping left-to-right replacement -/
+theorem replace_spec {r : Rep} {s : Bytes} (h : Models r s) (a b : Bytes) (ha : a ≠ []) (hb : NulFree b) :
+    ∃ r', r.replace a b = some r' ∧ Models r' (replaceAbs a b s) := by
+  obtain ⟨r', hr, hm⟩ := replace_rep h a b hb
+  rw [replace_eq s a b ha] at hm
+  exact ⟨r', hr, hm⟩
+
+/-! ## integers ↔ text -/
+
+/-- `int` → String → `int` is the identity on all 32-bit values (and construction stays inside the inline storage) -/
+theorem itoa_atoi (x : Int) (h1 : -2147483648 ≤ x) (h2 : x < 2147483648) :
+    ∃ r, ofInt x = some r ∧ Models r (myitoa x) ∧ myatoi r.view = x := by
+  obtain ⟨r, hr, hm⟩ := ofInt_spec x h1 h2
+  exact ⟨r, hr, hm, by rw [hm.view]; exact myatoi_myitoa x h1 h2⟩
+
+/-- `Long` → String → `Long` on all 64-bit values (incl. the most negative one) -/
+theorem ltoa_atol (x : Int) (h1 : -9223372036854775808 ≤ x) (h2 : x < 9223372036854775808) :
+    ∃ r, ofLong x = some r ∧ Models r (myltoa x) ∧ myatol r.view = x := by
+  obtain ⟨r, hr, hm⟩ := ofLong_spec x h1 h2
+  exact ⟨r, hr, hm, by rw [hm.view]; exact myatol_myltoa x h1 h2⟩
+
+/-- `unsigned` → String → `(unsigned)` (through libc `atoi`, as the API does) on all 32-bit values -/
+theorem utoa_atou (x : Nat) (h : x < 4294967296) :
+    ∃ r, ofUInt x = some r ∧ Models r (utoa x) ∧ toU32 (cAtoi r.view) = x := by
+  obtain ⟨r, hr, hm⟩ := ofUInt_spec x h
+  exact ⟨r, hr, hm, by rw [hm.view]; exact toU32_cAtoi_utoa x h⟩
+
+/-- `ULong` → String → `(ULong)(Long)` on all 64-bit values -/
+theorem ultoa_atoul (x : Nat) (h : x < 18446744073709551616) :
+    ∃ r, ofULong x = some r ∧ Models r (utoa x) ∧ toU64 (myatol r.view) = x := by
+  obtain ⟨r, hr, hm⟩ := ofULong_spec x h
+  exact ⟨r, hr, hm, by rw [hm.view]; exact toU64_myatol_utoa x h⟩
+
+/-- the text written for a non-negative number reads back, digit by digit, as that number
+    (the decimal-notation content of `myitoa`/`myltoa`/`%u`) -/
+theorem decimal_digits (n : Nat) :
+    (∀ c ∈ utoa n, 48 ≤ c ∧ c ≤ 57) ∧ digitLoop (utoa n) 0 = n := by
+  refine ⟨?_, (utoa_parse n).2⟩
+  unfold utoa
+  split
+  · intro c hc; simp at hc; subst hc; decide
+  · intro c hc; exact digitsRev_digits n c (by simpa using hc)
+
+/-! ## printf-style constructors -/
+
+/-- `String(n, fmt, …)` and `String::f(fmt, …)`: for ANY complete output `text` of `vsnprintf` and any initial size
+    hint, the retry loop stays in bounds and yields the complete text with `length() = |text|` -/
+theorem printf_retry_total (text : Bytes) (hn : NulFree text) :
+    (∀ n0, ∃ r, ofFormat n0 text = some r ∧ Models r text) ∧ (∃ r, ofF text = some r ∧ Models r text) :=
+  ⟨fun n0 => ofFormat_spec n0 text hn, ofF_spec text hn⟩
+
+/-- at most two `vsnprintf` attempts are ever needed: the loop with one retry left computes the same as with nine -/
+theorem printf_two_attempts (text : Bytes) (hn : NulFree text) (n0 tries : Nat) :
+    fmtLoop text (tries + 1) (alloc (if n0 = 0 then 100 else n0)) = fmtLoop text 1 (alloc (if n0 = 0 then 100 else n0)) := by
+  have ha := alloc_spec (if n0 = 0 then 100 else n0)
+  exact fmtLoop_two_attempts text hn tries ha.1 (by omega)
+
+/-! ## non-vacuity: the hypotheses are met by concrete non-trivial values -/
+
+example : ∃ r, ofBytes [104, 105] = some r ∧ Models r [104, 105] :=
+  ofBytes_spec _ (by intro c hc; simp at hc; rcases hc with rfl | rfl <;> decide)
+
+/-- a 20-byte string appended to itself (the witness of the repaired use-after-free) ends as 40 bytes -/
+example : (do let r ← ofBytes (List.replicate 20 97); let r' ← r.append (.self 0 r.len); pure (r'.toList, r'.len)) =
+    some (List.replicate 40 97, 40) := by decide +kernel
+
+example : (do let r ← ofBytes [48, 49, 50, 51, 52, 53, 54, 55, 56, 57]; let r' ← r.assign (.self 3 7); pure r'.toList) =
+    some [51, 52, 53, 54, 55, 56, 57] := by decide +kernel
+
+example : splitAbs [44] [] [97, 44, 44, 98] = [[97], [], [98]] := by decide +kernel
+example : replaceAbs [97, 97] [98] [97, 97, 97, 97, 97] = [98, 98, 97] := by decide +kernel
+example : Mut.Valid (.append [97]) := by intro c hc; simp at hc; subst hc; decide
+example : myltoa (-9223372036854775808) = [45, 57, 50, 50, 51, 51, 55, 50, 48, 51, 54, 56, 53, 52, 55, 55, 53, 56, 48, 56] := by
+  decide +kernel
 
 end C03
